@@ -41,13 +41,19 @@ NAT, BOOL, UNIT, LAYOUT, DETAILS, CHUNK, ORD, BUMP = "nat", "bool", "unit", "lay
 RAWVEC, RERR, STRATEGY, FALLIB = "rawvec", "rerr", "strategy", "fallibility"
 CHUNKLIST, CELLPREV = "chunklist", "cellprev"
 ELEM, SLOT, VECSELF, GUARD = "elem", "slot", "vecself", "guard"
-VECK = ("vec", "drain")     # kinds whose threaded state is the vector model: `Vec` methods, and methods of its iterator structs
+VECK = ("vec", "drain", "intoiter")
+ITERK = ("drain", "intoiter")     # kinds whose threaded state is the vector model: `Vec` methods, and methods of its iterator structs
 BD, DRAIN, ITER2 = "bound", "drainstruct", "sliceiter"
 SLICE, CB2 = "slice", "cb2"   # a sub-slice of the vector's buffer (first slot, length); a two-argument predicate (call log as data)
 EXTW = "extendwith"      # `impl ExtendWith<T>`: the one implementor, `ExtendElement(value)`, is the value it clones
 
 
 def res2(t): return ("res2", t)
+
+
+def ftype(ft):
+    """type of a receiver field given in a function table: Rust text, or ("ty", T) for a translator type"""
+    return ft[1] if isinstance(ft, tuple) and ft[0] == "ty" else rust_ty(ft)
 
 
 def opt(t): return ("opt", t)
@@ -93,6 +99,7 @@ def rust_ty(text):
     if t == "E": return EXTW
     if t == "[T]": return SLICE
     if t in ("Drain<T>", "Drain<'a,'bump,T>"): return DRAIN
+    if t == "IntoIter<'bump,T>": return ("tuple", [SLOT, SLOT])
     if t in ("slice::Iter<'a,T>", "slice::Iter<T>"): return ITER2
     if t in ("()", ""): return UNIT
     if t == "Layout": return LAYOUT
@@ -229,8 +236,16 @@ FUNCS += [
        self_fields=DRAIN_FIELDS),
     Fn("drop", "drain", "st", file=VEC_RS, group="VecDrain", anchor="Drop for Drain<'a, 'bump, T>", lean="drain_drop", self_fields=DRAIN_FIELDS),
 ]
+II_FIELDS = [("ptr", ("ty", SLOT)), ("end", ("ty", SLOT))]
+FUNCS += [
+    Fn("into_iter", "vec", "st", file=VEC_RS, group="VecIntoIter", anchor="IntoIterator for Vec<'bump, T>", lean="vec_into_iter"),
+    Fn("next", "intoiter", "st", file=VEC_RS, group="VecIntoIter", anchor="Iterator for IntoIter<'bump, T>", lean="intoiter_next", self_fields=II_FIELDS),
+    Fn("next_back", "intoiter", "st", file=VEC_RS, group="VecIntoIter", anchor="DoubleEndedIterator for IntoIter<'bump, T>", lean="intoiter_next_back",
+       self_fields=II_FIELDS),
+    Fn("drop", "intoiter", "st", file=VEC_RS, group="VecIntoIter", anchor="Drop for IntoIter<'bump, T>", lean="intoiter_drop", self_fields=II_FIELDS),
+]
 for _f in FUNCS:
-    if _f.lean in ("drain_next", "drain_next_back"):
+    if _f.lean in ("drain_next", "drain_next_back", "intoiter_next", "intoiter_next_back"):
         _f.moves_out = False
 FN = {f.name: f for f in FUNCS}
 # names that exist on several receivers: the table is per receiver kind
@@ -346,7 +361,7 @@ class Tr:
         t = self.ret
         inner = lean_ty(t[1]) if isinstance(t, tuple) and t[0] == "res" else lean_ty(t)
         if self.fn.self_fields and not self.ret_override:
-            inner = "(" + " × ".join([inner] + [lean_ty(rust_ty(ft)) for _, ft in self.fn.self_fields]) + ")"
+            inner = "(" + " × ".join([inner] + [lean_ty(ftype(ft)) for _, ft in self.fn.self_fields]) + ")"
         return f"{self.sty} × Outcome {inner}" if self.st else f"Outcome {inner}"
 
     def wrap(self, outcome):
@@ -533,7 +548,7 @@ class Tr:
             if len(segs) == 1 and segs[0] in env.d:
                 return env.d[segs[0]]
             if segs == ["self"]:
-                if self.fn.kind in ("iter", "guard", "drain"):
+                if self.fn.kind in ("iter", "guard") + ITERK:
                     return "self", "selfstruct"
                 if self.fn.kind == "rawvec":
                     return "v", RAWVEC
@@ -551,6 +566,7 @@ class Tr:
             if segs[-1] == "None": return "none", opt("?")
             if segs == ["AllocErr"] or segs == ["AllocError"]: return "()", "err"
             if segs == ["EMPTY_CHUNK"]: return "(emptyChunk E)", CHUNK
+            if segs == ["PhantomData"]: return "()", UNIT
             if segs[0] == "Ordering" and len(segs) == 2:
                 return {"Less": "Ordering.lt", "Equal": "Ordering.eq", "Greater": "Ordering.gt"}[segs[1]], ORD
             return None
@@ -584,7 +600,7 @@ class Tr:
                     ta = f"{paren(ta)}.footer"
                 elif tya == NAT and tyb == CHUNK:
                     tb = f"{paren(tb)}.footer"
-                elif not (tya == tyb and tya in (NAT, BOOL)):
+                elif not (tya == tyb and tya in (NAT, BOOL, SLOT)):
                     return None
                 lop = {"==": "==", "!=": "!=", "<": "<", ">": ">", "<=": "≤", ">=": "≥"}[op]
                 if op in ("==", "!="):
@@ -628,6 +644,7 @@ class Tr:
             if ty == VECSELF and f == "buf": return f"{self.sv}.1", RAWVEC
             if ty == "selfstruct" and ("self." + f) in env.d: return env.d["self." + f]
             if ty == "selfstruct" and f == "vec" and self.fn.kind == "drain": return "self", VECSELF
+            if ty == "selfstruct" and f == "phantom": return "()", UNIT
             if isinstance(ty, tuple) and ty[0] == "tuple" and f in ("0", "1"):
                 return f"{paren(t)}.{int(f) + 1}", ty[1][int(f)]
             return None
@@ -718,7 +735,7 @@ class Tr:
             pa = [self.pure(a, env) for a in args]
             if any(x is None for x in pa): return None
             n = segs[-1]
-            if n in ("size_of<T>", "align_of<T>") and not pa and self.fn.kind == "rawvec":
+            if n in ("size_of<T>", "align_of<T>") and not pa and self.fn.kind in ("rawvec",) + VECK:
                 return ("c.esz" if n.startswith("size") else "c.eal"), NAT
             if n == "size_of<usize>" and not pa:
                 return "8", NAT
@@ -729,6 +746,13 @@ class Tr:
                 return f"(some {t})", (opt(ty) if n == "Some" else res(ty))
             if n == "Err" and len(pa) == 1:
                 return "none", res("?")
+            if segs[-1] == "arith_offset" and len(pa) == 2 and pa[0][1] == SLOT and pa[1][1] == NAT:
+                # byte-wise stepping of a pointer to a zero-sized type: one "byte" per element, the index moves
+                return (pa[1][0] if pa[0][0] == "0" else f"({pa[0][0]} + {pa[1][0]})"), SLOT
+            if segs[-2:] == ["mem", "forget"] and len(pa) == 1 and pa[0][1] == VECSELF:
+                return "()", UNIT       # the vector's destructor does not run (it has none: the buffer stays in the arena)
+            if segs[-2:] == ["mem", "zeroed"] and not pa and self.fn.kind in VECK:
+                return "RsM.zst_any", ELEM     # a value of a zero-sized type made up from nothing
             if segs[-1] in ("from_raw_parts_mut", "from_raw_parts") and len(pa) == 2 and pa[0][1] == SLOT and pa[1][1] == NAT:
                 return f"({pa[0][0]}, {pa[1][0]})", SLICE
             if segs == ["ExtendElement"] and len(pa) == 1 and pa[0][1] == ELEM:
@@ -763,6 +787,15 @@ class Tr:
                     d[f] = p[0]
                 if set(d) != {"new_size_without_footer", "size", "align"}: return None
                 return f"(Details.mk {d['new_size_without_footer']} {d['align']} {d['size']})", DETAILS
+            if segs[-1] == "IntoIter":
+                d = {}
+                for f, fe in fs:
+                    p = self.pure(fe, env)
+                    if p is None: return None
+                    d[f] = p
+                if set(d) != {"phantom", "ptr", "end"} or d["ptr"][1] != SLOT or d["end"][1] != SLOT:
+                    return None
+                return f"({d['ptr'][0]}, {d['end'][0]})", ("tuple", [SLOT, SLOT])
             if segs[-1] == "Drain":
                 d = {}
                 for f, fe in fs:
@@ -1117,6 +1150,12 @@ class Tr:
             return self.panic()
         if segs[-1] == "unreachable_unchecked":
             return self.bad("unreachable_unchecked reached")
+        if n == "arith_offset" and len(args) == 2 and args[1][0] == "un" and args[1][1] == "-" and args[1][2][0] == "int":
+            def kneg(t, ty, env_):
+                if ty != SLOT:
+                    raise Untranslatable("arith_offset of a non-pointer")
+                return k(f"({t} - {args[1][2][1]})", SLOT, env_)
+            return self.E(args[0], env, K(kneg))
 
         if len(segs) == 1 and segs[0] in env.d and env.d[segs[0]][1] == CB2 and len(args) == 2:
             cbn = segs[0]
@@ -1355,7 +1394,7 @@ class Tr:
         if g is None or g.sig is None:
             raise Untranslatable("for_each(drop): the struct's `next` is not translated")
         fields = [f for f, _ in self.fn.self_fields]
-        tys = [rust_ty(ft) for _, ft in self.fn.self_fields]
+        tys = [ftype(ft) for _, ft in self.fn.self_fields]
         self.nj += 1
         name = f"{self.fn.lean}.loop_{self.nj}"
         envl = env.copy()
@@ -1493,7 +1532,7 @@ class Tr:
             e2, r = env.bind("r", ("tuple", [opt(SLOT), ITER2]))
             e3, it2 = e2.bind("self.iter", ITER2)
             return f"let {r} := RsM.slice_iter_{name} {it};\nlet {it2} := {r}.2;\n{k(r + '.1', opt(SLOT), e3)}"
-        if recv == ("path", ["self"]) and self.fn.kind == "drain" and name == "for_each" and args == [("path", ["drop"])]:
+        if recv == ("path", ["self"]) and self.fn.kind in ITERK and name == "for_each" and args == [("path", ["drop"])]:
             return self.FOR_EACH_DROP(env, k)
         if self.recv_is_vec(recv, env) and ("vec", name) in FN_BY_KIND:
             return self.args(args, env, lambda pa, env_: self.call_fn(FN_BY_KIND[("vec", name)], None, pa, env_, k))
@@ -1736,7 +1775,7 @@ class Tr:
         params = list(self.lead)
         cb_params = []
         for f_, ft in self.fn.self_fields:
-            ty = rust_ty(ft)
+            ty = ftype(ft)
             env, ln = env.bind("self." + f_, ty)
             if ty == CHUNK:
                 self.chunk_ver[ln] = self.version
@@ -1953,8 +1992,8 @@ def translate_all(repo):
 
 
 GROUP_IMPORTS = {"Arith": [], "Details": ["Arith"], "Bytes": ["Arith"], "Limit": ["Arith", "Bytes"], "Footer": ["Arith"], "Fast": ["Arith", "Footer"],
-                 "Realloc": ["Arith", "Fast", "Footer", "Limit"], "RawVec": [], "Vec": ["RawVec"], "VecDrain": ["RawVec", "Vec"], "Reset": ["Arith", "Footer"], "Rewind": ["Arith", "Footer", "Limit", "Fast", "Realloc"], "NewChunk": ["Arith"], "Iter": ["Arith", "Footer"], "Ctor": ["Arith", "Details", "NewChunk"], "Slow": ["Arith", "Details", "Bytes", "Limit", "Footer", "Fast", "NewChunk"]}
-GROUP_PRELUDE = {"RawVec": "BumpVerif.Model.RsVec", "Vec": "BumpVerif.Model.RsVecM", "VecDrain": "BumpVerif.Model.RsVecM"}
+                 "Realloc": ["Arith", "Fast", "Footer", "Limit"], "RawVec": [], "Vec": ["RawVec"], "VecDrain": ["RawVec", "Vec"], "VecIntoIter": ["RawVec", "Vec"], "Reset": ["Arith", "Footer"], "Rewind": ["Arith", "Footer", "Limit", "Fast", "Realloc"], "NewChunk": ["Arith"], "Iter": ["Arith", "Footer"], "Ctor": ["Arith", "Details", "NewChunk"], "Slow": ["Arith", "Details", "Bytes", "Limit", "Footer", "Fast", "NewChunk"]}
+GROUP_PRELUDE = {"RawVec": "BumpVerif.Model.RsVec", "Vec": "BumpVerif.Model.RsVecM", "VecDrain": "BumpVerif.Model.RsVecM", "VecIntoIter": "BumpVerif.Model.RsVecM"}
 
 
 def run(repo, out_dir, write_if_changed):
